@@ -154,3 +154,13 @@ func VerifForceRespond(f Future, err error) bool {
 	}
 	return true
 }
+
+// VerifCommitmentFromState builds a commitment in an arbitrary state.
+func VerifCommitmentFromState(match map[ServerID]uint64, commitIndex, startIndex uint64) *VerifCommitment {
+	ch := make(chan struct{}, 1)
+	m := make(map[ServerID]uint64, len(match))
+	for k, v := range match {
+		m[k] = v
+	}
+	return &VerifCommitment{c: &commitment{commitCh: ch, matchIndexes: m, commitIndex: commitIndex, startIndex: startIndex}, ch: ch}
+}
